@@ -20,6 +20,12 @@ Ltac rb H :=
       let a := fresh "a" in let E := fresh "E" in
       destruct X as [a| |] eqn:E; cbn [rmap] in H; [|discriminate H|discriminate H]
   end.
+Ltac rbn H En :=
+  match type of H with
+  | rbind ?X _ = Ok _ =>
+      let a := fresh "a" in
+      destruct X as [a| |] eqn:En; cbn [rbind] in H; [|discriminate H|discriminate H]
+  end.
 Ltac okinv H := injection H as H; repeat match type of H with _ /\ _ => idtac end.
 
 Lemma rbind_np {A B} (r:res A) (k:A -> res B) :
@@ -42,6 +48,15 @@ Lemma ty_eqb_false a b : ty_eqb a b = false -> a <> b.
 Proof. intros H ->. rewrite ty_eqb_refl in H. discriminate. Qed.
 Lemma negb_if_ok {A} (b:bool) (x:res A) r : (if negb b then Err else x) = Ok r -> b = true /\ x = Ok r.
 Proof. destruct b; cbn; [auto|discriminate]. Qed.
+
+Lemma lt_pow2_spec k : forall n, lt_pow2 k n = true <-> n < 2 ^ k.
+Proof.
+  induction k as [|k IH]; intros n; cbn [lt_pow2].
+  - rewrite Nat.eqb_eq. cbn. lia.
+  - destruct n as [|m]; [split; [intros _; apply Nat.neq_0_lt_0, Nat.pow_nonzero; discriminate|reflexivity]|].
+    rewrite IH. pose proof (Nat.div2_odd (S m)) as Ho. rewrite Nat.pow_succ_r'.
+    destruct (Nat.odd (S m)); cbn [Nat.b2n] in Ho; lia.
+Qed.
 
 (* ---------- association lists ---------- *)
 Definition ctx_eq (a b:ctx) : Prop := forall x, lookupN a x = lookupN b x.
@@ -347,7 +362,7 @@ Proof.
   - destruct ts as [|t ts]; [discriminate|]. cbn [map2_st] in H.
     rb H. destruct a as [b s1]. rb H. destruct a as [bs1 s2]. injection H as <- <-.
     apply He in E as (Hle1 & Hty1 & Hwt1).
-    apply IH in E0 as (Hle2 & Hty2 & Hwt2); [|cbn in Hlen; lia].
+    apply IH in E0 as (Hle2 & Hty2 & Hwt2); [|cbn in Hlen; now injection Hlen].
     split; [eapply le_st_trans; eassumption|]. split; [cbn; congruence|].
     intros Hf Hg. constructor.
     + apply Hwt1; [exact Hf|]. eapply good_le; [apply Hle2|exact Hg].
@@ -607,7 +622,7 @@ Proof.
     rewrite Forall_forall in *. intros x Hx. rewrite (Hwt x Hx), (Hall x Hx), ty_eqb_refl. reflexivity.
   - (* list *)
     destruct t as [| | | | | |a k]; try discriminate. destruct k as [|k]; [discriminate|].
-    destruct (Nat.leb (2 ^ S k) (length es)) eqn:Eb; [discriminate|]. apply Nat.leb_gt in Eb.
+    destruct (lt_pow2 (S k) (length es)) eqn:Eb; [|discriminate]. cbn [negb] in Heq. apply lt_pow2_spec in Eb.
     rb Heq. destruct a0 as [es' s1]. injection Heq as <- <-.
     apply (map2_sound _ _ H) in E as (Hle & Hty & Hwt); [|now rewrite repeat_length].
     apply map_repeat_inv in Hty as [Hl Hall].
@@ -749,3 +764,761 @@ Corollary analyze_sound_lookup jlook jsig balias main_name p main ps ws tr args 
   args_consistent args ps ->
   wt_program jsig (lookupN ws) args main = true.
 Proof. intros H Ha. eapply analyze_sound; eauto. Qed.
+
+(* ====================================================================================== *)
+(** * Tracked calls: exactly the tracked-kind call sites, every function body once *)
+
+(* the calls for which Call::analyze calls scope.track_call (ast.rs 1103-1155) ... *)
+Definition tracked_name (n:pcallname) : bool :=
+  match n with
+  | PJet _ | PUnwrapLeft _ | PUnwrapRight _ | PUnwrap | PAssert | PPanic | PDebug => true
+  | PIsNone _ | PCast _ | PCustom _ | PFold _ _ | PForWhile _ => false
+  end.
+(* ... and those among them that are tracked AFTER their arguments were analysed *)
+Definition post_name (n:pcallname) : bool :=
+  match n with PUnwrapLeft _ | PUnwrapRight _ | PDebug => true | _ => false end.
+
+(* all call sites of an expression, in the order in which a successful analysis visits them *)
+Fixpoint calls (e:pexpr) : list (N*pcallname) :=
+  match e with
+  | PBlock stmts last =>
+      flat_map (fun sm => calls (snd sm)) stmts ++ match last with Some l => calls l | None => [] end
+  | PBool _ | PLit _ | PWitness _ | PParam _ | PVar _ | PNone => []
+  | PParen e1 | PLeft e1 | PRight e1 | PSome e1 => calls e1
+  | PTuple es | PArray es | PList es => flat_map calls es
+  | PCall sp name args =>
+      if post_name name then flat_map calls args ++ [(sp,name)] else (sp,name) :: flat_map calls args
+  | PMatch s _ el _ er => calls s ++ calls el ++ calls er
+  end.
+Definition calls_item (it:pitem) : list (N*pcallname) :=
+  match it with IFunction _ _ _ body => calls body | _ => [] end.
+Definition calls_program (p:pprogram) : list (N*pcallname) := flat_map calls_item p.
+
+(* span ids of the tracked-kind calls of a call list *)
+Definition ts (l:list (N*pcallname)) : list N := map fst (filter (fun c => tracked_name (snd c)) l).
+Lemma ts_app a b : ts (a ++ b) = ts a ++ ts b.
+Proof. unfold ts. now rewrite filter_app, map_app. Qed.
+Lemma ts_flat_map {A} (f:A -> list (N*pcallname)) l : ts (flat_map f l) = flat_map (fun a => ts (f a)) l.
+Proof. induction l as [|a l IH]; cbn [flat_map]; [reflexivity|]. now rewrite ts_app, IH. Qed.
+
+Section Tracked.
+Variable jlook : N -> option N.
+Variable jsig : N -> option (list ty * ty).
+Variable balias : N -> option ty.
+Variable main_name : N.
+
+Section ExprT.
+Variable al : list (N*ty).
+Variable fn : list (N*fdef).
+Variable is_main : bool.
+Notation AE := (analyze_expr jlook jsig balias al fn is_main).
+
+Definition trk_fn (F : ty -> st -> res (expr*st)) (l:list N) : Prop :=
+  forall t s e' s', F t s = Ok (e', s') -> map fst (tlog s') = rev l ++ map fst (tlog s).
+
+Section ListsT.
+Variable F : pexpr -> ty -> st -> res (expr*st).
+Lemma map2_trk l : Forall (fun e => trk_fn (F e) (ts (calls e))) l ->
+  forall tys s bs s', map2_st F l tys s = Ok (bs, s') -> length l = length tys ->
+    map fst (tlog s') = rev (ts (flat_map calls l)) ++ map fst (tlog s).
+Proof.
+  induction 1 as [|e l He _ IH]; intros tys s bs s' H Hlen.
+  - destruct tys; [|discriminate]. cbn in H. injection H as <- <-. reflexivity.
+  - destruct tys as [|t tys]; [discriminate|]. cbn [map2_st] in H.
+    rb H. destruct a as [b s1]. rb H. destruct a as [bs1 s2]. injection H as <- <-.
+    apply He in E. apply IH in E0; [|cbn in Hlen; now injection Hlen].
+    cbn [flat_map]. rewrite ts_app, rev_app_distr, <- app_assoc, E0, E. reflexivity.
+Qed.
+Lemma stmts_trk stmts : Forall (fun sm => trk_fn (F (snd sm)) (ts (calls (snd sm)))) stmts ->
+  forall s ss' s2, map_st (stmt_step balias al F) stmts s = Ok (ss', s2) ->
+    map fst (tlog s2) = rev (ts (flat_map (fun sm => calls (snd sm)) stmts)) ++ map fst (tlog s).
+Proof.
+  induction 1 as [|sm stmts Hsm _ IH]; intros s ss' s2 H.
+  - cbn in H. injection H as <- <-. reflexivity.
+  - cbn [map_st] in H. rb H. destruct a as [b s1']. rb H. destruct a as [bs sF]. injection H as <- <-.
+    apply IH in E0. cbn [flat_map]. rewrite ts_app, rev_app_distr, <- app_assoc, E0. f_equal.
+    destruct sm as [[[p a]|] e]; cbn [snd] in *; cbn [stmt_step] in E.
+    + rb E. rb E. destruct a1 as [e' s1]. rb E. rb E. injection E as <- <-. apply Hsm in E2. exact E2.
+    + rb E. destruct a as [e' s1]. injection E as <- <-. now apply Hsm in E1.
+Qed.
+Lemma arm_trk mp e l : trk_fn (F e) l -> trk_fn (arm_step balias al F mp e) l.
+Proof.
+  intros He t s e' s' H. unfold arm_step in H.
+  rb H. rename a into s2. rb H. destruct a as [e1 s3]. rb H. injection H as <- <-.
+  apply He in E0. cbn [tlog set_vars]. rewrite E0. f_equal.
+  destruct (typed_var mp) as [[x a0]|].
+  - rb E. rb E. injection E as <-. reflexivity.
+  - injection E as <-. reflexivity.
+Qed.
+End ListsT.
+
+Lemma call_plan_track name cn t n tys pre post build :
+  analyze_callname jlook balias al fn name = Ok cn -> call_plan jsig cn t n = Ok (tys, pre, post, build) ->
+  length tys = n /\
+  if post_name name then pre = None /\ tracked_name name = true /\ exists k, post = Some k
+  else post = None /\ if tracked_name name then exists k, pre = Some k else pre = None.
+Proof.
+  intros Hcn Hp. destruct name; cbn [analyze_callname] in Hcn; cbn [post_name tracked_name].
+  - destruct (jlook n0) as [j|]; [|discriminate]. injection Hcn as <-. cbn [call_plan] in Hp.
+    destruct (jsig j) as [[ps r]|]; [|discriminate].
+    apply negb_if_ok in Hp as [Hn Hp]. apply negb_if_ok in Hp as [_ Hp]. injection Hp as <- <- <- <-.
+    apply Nat.eqb_eq in Hn. eauto.
+  - rb Hcn. injection Hcn as <-. cbn [call_plan] in Hp. apply negb_if_ok in Hp as [Hn Hp]. injection Hp as <- <- <- <-.
+    apply Nat.eqb_eq in Hn. eauto.
+  - rb Hcn. injection Hcn as <-. cbn [call_plan] in Hp. apply negb_if_ok in Hp as [Hn Hp]. injection Hp as <- <- <- <-.
+    apply Nat.eqb_eq in Hn. eauto.
+  - rb Hcn. injection Hcn as <-. cbn [call_plan] in Hp. apply negb_if_ok in Hp as [Hn Hp].
+    apply negb_if_ok in Hp as [_ Hp]. injection Hp as <- <- <- <-. apply Nat.eqb_eq in Hn. eauto.
+  - injection Hcn as <-. cbn [call_plan] in Hp. apply negb_if_ok in Hp as [Hn Hp]. injection Hp as <- <- <- <-.
+    apply Nat.eqb_eq in Hn. eauto.
+  - injection Hcn as <-. cbn [call_plan] in Hp. apply negb_if_ok in Hp as [Hn Hp].
+    apply negb_if_ok in Hp as [_ Hp]. injection Hp as <- <- <- <-. apply Nat.eqb_eq in Hn. eauto.
+  - injection Hcn as <-. cbn [call_plan] in Hp. apply negb_if_ok in Hp as [Hn Hp]. injection Hp as <- <- <- <-.
+    apply Nat.eqb_eq in Hn. eauto.
+  - injection Hcn as <-. cbn [call_plan] in Hp. apply negb_if_ok in Hp as [Hn Hp]. injection Hp as <- <- <- <-.
+    apply Nat.eqb_eq in Hn. eauto.
+  - rb Hcn. injection Hcn as <-. cbn [call_plan] in Hp. apply negb_if_ok in Hp as [_ Hp].
+    apply negb_if_ok in Hp as [Hn Hp]. injection Hp as <- <- <- <-. apply Nat.eqb_eq in Hn. eauto.
+  - destruct (lookupN fn f) as [[ps body]|]; [|discriminate]. injection Hcn as <-. cbn [call_plan] in Hp.
+    apply negb_if_ok in Hp as [Hn Hp]. apply negb_if_ok in Hp as [_ Hp]. injection Hp as <- <- <- <-.
+    apply Nat.eqb_eq in Hn. rewrite map_length. eauto.
+  - destruct k as [|k]; [discriminate|].
+    destruct (lookupN fn f) as [[ps body]|]; [|discriminate].
+    destruct ps as [|[x1 e1] [|[x2 a2] [|? ?]]]; try discriminate.
+    destruct (ty_eqb a2 (ty_of body)); [|discriminate]. injection Hcn as <-. cbn [call_plan] in Hp.
+    apply negb_if_ok in Hp as [Hn Hp]. apply negb_if_ok in Hp as [_ Hp]. injection Hp as <- <- <- <-.
+    apply Nat.eqb_eq in Hn. eauto.
+  - destruct (lookupN fn f) as [[ps body]|]; [|discriminate].
+    destruct ps as [|[x1 a1] [|[x2 c2] [|[x3 c3] [|? ?]]]]; try discriminate.
+    destruct (ty_of body) as [b r| | | | | |]; try discriminate.
+    destruct (ty_eqb r a1); [|discriminate].
+    destruct c3 as [| | |w| | |]; try discriminate. destruct (Nat.leb w 4); [|discriminate].
+    injection Hcn as <-. cbn [call_plan] in Hp.
+    apply negb_if_ok in Hp as [Hn Hp]. apply negb_if_ok in Hp as [_ Hp]. injection Hp as <- <- <- <-.
+    apply Nat.eqb_eq in Hn. eauto.
+Qed.
+
+Theorem analyze_expr_tracked e : trk_fn (AE e) (ts (calls e)).
+Proof.
+  induction e using pexpr_ind'; intros t s e' s' Heq; cbn [analyze_expr] in Heq; cbn [calls].
+  - rb Heq. destruct a as [ss' s2]. rb Heq. destruct a as [last' s3]. rb Heq. injection Heq as <- <-.
+    apply (stmts_trk _ _ H) in E. cbn [tlog set_vars] in *.
+    rewrite ts_app, rev_app_distr, <- app_assoc, <- E.
+    destruct last as [l|].
+    + rbn E0 El. destruct a0 as [l' s3']. injection E0 as <- <-. cbn in H0. now apply H0 in El.
+    + destruct (is_unit t); [|discriminate]. injection E0 as <- <-. reflexivity.
+  - destruct t; try discriminate. injection Heq as <- <-. reflexivity.
+  - rb Heq. injection Heq as <- <-. reflexivity.
+  - rb Heq. injection Heq as <- <-. unfold insert_witness in E. destruct (negb is_main); [discriminate|].
+    destruct (lookupN (wits s) n); [discriminate|]. injection E as <-. reflexivity.
+  - rb Heq. injection Heq as <- <-. unfold insert_parameter in E. destruct (lookupN (params s) n).
+    + destruct (ty_eqb t0 t); [|discriminate]. injection E as <-. reflexivity.
+    + injection E as <-. reflexivity.
+  - destruct (get_variable (vars s) x); [|discriminate]. destruct (negb (ty_eqb t t0)); [discriminate|].
+    rb Heq. injection Heq as <- <-. reflexivity.
+  - rb Heq. destruct a as [e1 s1]. injection Heq as <- <-. now apply IHe in E.
+  - destruct t as [| | | |tys| |]; try discriminate. apply negb_if_ok in Heq as [Hlen Heq]. apply Nat.eqb_eq in Hlen.
+    rb Heq. destruct a as [es' s1]. injection Heq as <- <-. now apply (map2_trk _ _ H) in E.
+  - destruct t as [| | | | |a n|]; try discriminate. apply negb_if_ok in Heq as [Hlen Heq].
+    rb Heq. destruct a0 as [es' s1]. injection Heq as <- <-.
+    apply (map2_trk _ _ H) in E; [exact E|now rewrite repeat_length].
+  - destruct t as [| | | | | |a k]; try discriminate. destruct k as [|k]; [discriminate|].
+    destruct (negb (lt_pow2 (S k) (length es))); [discriminate|].
+    rb Heq. destruct a0 as [es' s1]. injection Heq as <- <-.
+    apply (map2_trk _ _ H) in E; [exact E|now rewrite repeat_length].
+  - destruct t; try discriminate. rb Heq. destruct a as [e1 s1]. injection Heq as <- <-. now apply IHe in E.
+  - destruct t; try discriminate. rb Heq. destruct a as [e1 s1]. injection Heq as <- <-. now apply IHe in E.
+  - destruct t; try discriminate. injection Heq as <- <-. reflexivity.
+  - destruct t; try discriminate. rb Heq. destruct a as [e1 s1]. injection Heq as <- <-. now apply IHe in E.
+  - rb Heq. rename a into cn. rb Heq. destruct a as [[[tys pre] post] build]. cbn zeta in Heq.
+    rb Heq. destruct a as [args' s2]. injection Heq as <- <-.
+    destruct (call_plan_track _ _ _ _ _ _ _ _ E E0) as (Hlen & Hk).
+    apply (map2_trk _ _ H) in E1; [|now symmetry].
+    destruct (post_name name).
+    + destruct Hk as (-> & Ht & k & ->). cbn [track_opt track tlog map fst] in *.
+      rewrite ts_app, rev_app_distr. unfold ts at 1. cbn [filter snd]. rewrite Ht. cbn [map fst rev app].
+      now rewrite E1.
+    + destruct Hk as (-> & Hk). cbn [track_opt]. rewrite E1. unfold ts at 2. cbn [filter snd].
+      destruct (tracked_name name).
+      * destruct Hk as (k & ->). cbn [track_opt track tlog map fst rev]. fold (ts (flat_map calls args)).
+        now rewrite <- app_assoc.
+      * subst pre. reflexivity.
+  - rb Heq. rename a into sa. rb Heq. rename a into sty. rb Heq. destruct a as [sc' s1].
+    rb Heq. destruct a as [el' s2]. rb Heq. destruct a as [er' s3]. injection Heq as <- <-.
+    apply IHe1 in E1. apply (arm_trk _ _ _ _ IHe2) in E2. apply (arm_trk _ _ _ _ IHe3) in E3.
+    rewrite !ts_app, !rev_app_distr, <- !app_assoc, E3, E2, E1. reflexivity.
+Qed.
+End ExprT.
+
+Lemma function_tracked name ps ret body g r g' :
+  analyze_function jlook jsig balias main_name name ps ret body g = Ok (r, g') ->
+  map fst (g_tlog g') = rev (ts (calls body)) ++ map fst (g_tlog g).
+Proof.
+  unfold analyze_function. intros H. destruct (negb (N.eqb name main_name)).
+  - rb H. destruct (negb (nodup_keys a)); [discriminate|]. rb H. cbn zeta in H. rb H. destruct a1 as [body' s1]. rb H.
+    destruct (lookupN (g_fn g) name); [discriminate|]. injection H as <- <-.
+    now apply analyze_expr_tracked in E1.
+  - destruct ps; [|discriminate]. rb H. cbn zeta in H. rb H. destruct a0 as [body' s1]. rb H.
+    injection H as <- <-. now apply analyze_expr_tracked in E0.
+Qed.
+
+Lemma items_tracked p : forall g items g',
+  map_st (analyze_item jlook jsig balias main_name) p g = Ok (items, g') ->
+  map fst (g_tlog g') = rev (ts (calls_program p)) ++ map fst (g_tlog g).
+Proof.
+  induction p as [|it p IH]; intros g items g' H; cbn [map_st] in H.
+  - injection H as <- <-. reflexivity.
+  - rb H. destruct a as [r g1]. rb H. destruct a as [items1 g2]. injection H as <- <-.
+    apply IH in E0. unfold calls_program. cbn [flat_map]. fold (calls_program p).
+    rewrite ts_app, rev_app_distr, <- app_assoc, E0. f_equal.
+    destruct it; cbn [analyze_item calls_item] in *.
+    + rb E. injection E as <- <-. reflexivity.
+    + now apply function_tracked in E.
+    + injection E as <- <-. reflexivity.
+Qed.
+
+(* the tracked calls, in id order, are exactly the tracked-kind call sites of all function bodies
+   (main included) in item order; within a body in analysis order (jet, unwrap, assert!, panic! before
+   their arguments; unwrap_left, unwrap_right, dbg! after them).  A function body is analysed, and its
+   calls are tracked, once: at its definition, not at its calls. *)
+Theorem tracked_exact p main ps ws tr :
+  analyze_program jlook jsig balias main_name p = Ok (main, ps, ws, tr) ->
+  map fst tr = ts (calls_program p).
+Proof.
+  unfold analyze_program. intros H. rb H. destruct a as [items g]. apply items_tracked in E.
+  destruct (mains items) as [|m [|? ?]]; try discriminate. injection H as <- <- <- <-.
+  rewrite map_rev, E. cbn [g_tlog genv0 map]. rewrite app_nil_r. apply rev_involutive.
+Qed.
+
+Lemma NoDup_ts l : NoDup (map fst l) -> NoDup (ts l).
+Proof.
+  unfold ts. induction l as [|c l IH]; cbn [map filter]; intros H; [constructor|].
+  inversion H as [|? ? Hn Hd]; subst. destruct (tracked_name (snd c)); [|auto].
+  cbn [map]. constructor; [|auto]. intros Hin. apply Hn.
+  apply in_map_iff in Hin as (c' & Hc & Hin). apply filter_In in Hin as [Hin _].
+  apply in_map_iff. eauto.
+Qed.
+
+(* markers are injective: if the call sites of the program have pairwise distinct span ids,
+   no span is tracked twice (so CallTracker's map loses no entry) *)
+Theorem tracked_ids p main ps ws tr :
+  analyze_program jlook jsig balias main_name p = Ok (main, ps, ws, tr) ->
+  NoDup (map fst (calls_program p)) -> NoDup (map fst tr).
+Proof. intros H Hn. rewrite (tracked_exact _ _ _ _ _ H). now apply NoDup_ts. Qed.
+End Tracked.
+Print Assumptions tracked_exact.
+Print Assumptions tracked_ids.
+
+(* ====================================================================================== *)
+(** * No panic on the parse trees the parser can produce *)
+
+(* What Match::parse and the grammar guarantee (parse.rs 1230-1240; minimal.pest hex_literal):
+   the two arms of a match form one of the three valid pairs, and a hexadecimal literal is a
+   non-empty string of hex digits.  These are the only inputs on which ast.rs can panic:
+   see [analyze_no_panic] and the witnesses [panic_invalid_arms], [panic_hex_u1_empty], [panic_hex_bad_char]. *)
+Definition is_hex_b (c:N) : bool :=
+  ((48 <=? c) && (c <=? 57) || (97 <=? c) && (c <=? 102) || (65 <=? c) && (c <=? 70))%N.
+Definition lit_wf (l:lit) : bool :=
+  match l with
+  | LHex s => forallb is_hex_b s && match s with [] => false | _ => true end
+  | _ => true
+  end.
+Definition arms_ok (lp rp:mpat) : bool :=
+  match lp, rp with MLeft _ _, MRight _ _ | MNone, MSome _ _ | MFalse, MTrue => true | _, _ => false end.
+Fixpoint pexpr_wf (e:pexpr) : bool :=
+  match e with
+  | PBlock stmts last =>
+      forallb (fun sm => pexpr_wf (snd sm)) stmts && match last with Some l => pexpr_wf l | None => true end
+  | PLit l => lit_wf l
+  | PBool _ | PWitness _ | PParam _ | PVar _ | PNone => true
+  | PParen e1 | PLeft e1 | PRight e1 | PSome e1 => pexpr_wf e1
+  | PTuple es | PArray es | PList es => forallb pexpr_wf es
+  | PCall _ _ args => forallb pexpr_wf args
+  | PMatch s lp el rp er => arms_ok lp rp && pexpr_wf s && pexpr_wf el && pexpr_wf er
+  end.
+Definition item_wf (it:pitem) : bool := match it with IFunction _ _ _ body => pexpr_wf body | _ => true end.
+Definition program_wf (p:pprogram) : bool := forallb item_wf p.
+
+Lemma is_hex_b_all s : forallb is_hex_b s = true -> all_hex s.
+Proof.
+  intros H. apply Forall_forall. intros c Hc. rewrite forallb_forall in H. specialize (H c Hc).
+  unfold is_hex_b in H. unfold is_hex. lia.
+Qed.
+
+Lemma analyze_lit_np l t : lit_wf l = true -> analyze_lit l t <> Panic.
+Proof.
+  destruct l as [s|s|s]; cbn [lit_wf analyze_lit]; intros Hwf.
+  - destruct t; try discriminate. apply rmap_np, parse_decimal_no_panic.
+  - destruct t; try discriminate. apply rmap_np, parse_binary_no_panic.
+  - apply andb_true_iff in Hwf as [Hh Hne]. apply is_hex_b_all in Hh.
+    destruct t as [| | |k| |t0 n|]; try discriminate.
+    + apply rmap_np. intros Hp. apply (parse_hex_uint_panic_iff_hex k s Hh) in Hp as [_ ->]. discriminate.
+    + destruct t0 as [| | |[|[|[|[|k]]]]| | |]; try discriminate.
+      apply rmap_np. now apply parse_hex_bytes_no_panic.
+Qed.
+
+Lemma mapr_np {A B} (F:A -> res B) l : Forall (fun a => F a <> Panic) l -> mapr F l <> Panic.
+Proof.
+  induction 1 as [|a l Ha _ IH]; cbn [mapr]; [discriminate|].
+  apply rbind_np; [exact Ha|]. intros b _. now apply rmap_np.
+Qed.
+Lemma resolve_np balias al a : resolve balias al a <> Panic.
+Proof.
+  induction a using aty_ind'; cbn [resolve]; try discriminate; try apply of_opt_np; try now apply rmap_np.
+  - apply rbind_np; [exact IHa1|]. intros x _. apply rbind_np; [exact IHa2|]. discriminate.
+  - apply rmap_np, mapr_np. exact H.
+Qed.
+
+Section NoPanic.
+Variable jlook : N -> option N.
+Variable jsig : N -> option (list ty * ty).
+Variable balias : N -> option ty.
+Variable main_name : N.
+
+(* the monotonicity part of soundness does not depend on W / args *)
+Definition W0 : N -> option ty := fun _ => None.
+Definition args0 : N -> option value := fun _ => None.
+
+Section ExprN.
+Variable al : list (N*ty).
+Variable fn : list (N*fdef).
+Variable is_main : bool.
+Notation AE := (analyze_expr jlook jsig balias al fn is_main).
+
+Lemma analyze_expr_le e t s e' s' : AE e t s = Ok (e', s') -> le_st s s'.
+Proof. intros H. now apply (analyze_expr_sound jlook jsig balias W0 args0) in H. Qed.
+
+Lemma analyze_callname_np name : analyze_callname jlook balias al fn name <> Panic.
+Proof.
+  destruct name; cbn [analyze_callname]; try discriminate; try (apply rmap_np, resolve_np).
+  - destruct (jlook n); discriminate.
+  - destruct (lookupN fn f); discriminate.
+  - destruct k; [discriminate|]. destruct (lookupN fn f) as [[ps body]|]; [|discriminate].
+    destruct ps as [|? [|[? a2] [|? ?]]]; try discriminate. destruct (ty_eqb a2 (ty_of body)); discriminate.
+  - destruct (lookupN fn f) as [[ps body]|]; [|discriminate].
+    destruct ps as [|[? a1] [|? [|[? c3] [|? ?]]]]; try discriminate.
+    destruct (ty_of body); try discriminate. destruct (ty_eqb _ a1); [|discriminate].
+    destruct c3; try discriminate. destruct (Nat.leb k 4); discriminate.
+Qed.
+
+(* the `expect("foldable function")` / `expect("loopable function")` sites of Call::analyze
+   (ast.rs 1184-1216) are unreachable: CallName::analyze has checked the number of parameters *)
+Lemma fold_expect_unreachable name cn t n :
+  analyze_callname jlook balias al fn name = Ok cn -> call_plan jsig cn t n <> Panic.
+Proof.
+  intros Hcn. destruct name; cbn [analyze_callname] in Hcn.
+  - destruct (jlook n0); [|discriminate]. injection Hcn as <-. cbn [call_plan].
+    destruct (jsig n1) as [[ps r]|]; [|discriminate].
+    destruct (negb (Nat.eqb n (length ps))); [discriminate|]. destruct (negb (ty_eqb r t)); discriminate.
+  - rb Hcn. injection Hcn as <-. cbn [call_plan]. destruct (negb (Nat.eqb n 1)); discriminate.
+  - rb Hcn. injection Hcn as <-. cbn [call_plan]. destruct (negb (Nat.eqb n 1)); discriminate.
+  - rb Hcn. injection Hcn as <-. cbn [call_plan]. destruct (negb (Nat.eqb n 1)); [discriminate|].
+    destruct (negb (ty_eqb TBool t)); discriminate.
+  - injection Hcn as <-. cbn [call_plan]. destruct (negb (Nat.eqb n 1)); discriminate.
+  - injection Hcn as <-. cbn [call_plan]. destruct (negb (Nat.eqb n 1)); [discriminate|].
+    destruct (negb (ty_eqb TUnit t)); discriminate.
+  - injection Hcn as <-. cbn [call_plan]. destruct (negb (Nat.eqb n 0)); discriminate.
+  - injection Hcn as <-. cbn [call_plan]. destruct (negb (Nat.eqb n 1)); discriminate.
+  - rb Hcn. injection Hcn as <-. cbn [call_plan]. destruct (negb (cast_ok a t)); [discriminate|].
+    destruct (negb (Nat.eqb n 1)); discriminate.
+  - destruct (lookupN fn f) as [[ps body]|]; [|discriminate]. injection Hcn as <-. cbn [call_plan].
+    destruct (negb (Nat.eqb n (length ps))); [discriminate|]. destruct (negb (ty_eqb (ty_of body) t)); discriminate.
+  - destruct k; [discriminate|]. destruct (lookupN fn f) as [[ps body]|]; [|discriminate].
+    destruct ps as [|[? ?] [|[? a2] [|? ?]]]; try discriminate.
+    destruct (ty_eqb a2 (ty_of body)); [|discriminate]. injection Hcn as <-. cbn [call_plan].
+    destruct (negb (Nat.eqb n 2)); [discriminate|]. destruct (negb (ty_eqb (ty_of body) t)); discriminate.
+  - destruct (lookupN fn f) as [[ps body]|]; [|discriminate].
+    destruct ps as [|[? a1] [|[? ?] [|[? c3] [|? ?]]]]; try discriminate.
+    destruct (ty_of body) eqn:Eb; try discriminate. destruct (ty_eqb _ a1); [|discriminate].
+    destruct c3; try discriminate. destruct (Nat.leb k 4); [|discriminate]. injection Hcn as <-. cbn [call_plan].
+    destruct (negb (Nat.eqb n 2)); [discriminate|]. rewrite Eb. destruct (negb (ty_eqb _ t)); discriminate.
+Qed.
+
+Definition np_fn (F : ty -> st -> res (expr*st)) : Prop := forall t s, F t s <> Panic.
+
+Section ListsN.
+Variable F : pexpr -> ty -> st -> res (expr*st).
+Hypothesis HF : forall e t s, F e t s = AE e t s.
+
+Lemma map2_np l : Forall (fun e => np_fn (F e)) l -> forall tys s, map2_st F l tys s <> Panic.
+Proof.
+  induction 1 as [|e l He _ IH]; intros tys s; [destruct tys; discriminate|].
+  destruct tys as [|t tys]; [discriminate|]. cbn [map2_st].
+  apply rbind_np; [apply He|]. intros [b s1] _. apply rbind_np; [apply IH|]. intros [bs s2] _. discriminate.
+Qed.
+
+Lemma stmts_np stmts : Forall (fun sm => np_fn (F (snd sm))) stmts ->
+  forall s, vars s <> [] -> map_st (stmt_step balias al F) stmts s <> Panic.
+Proof.
+  induction 1 as [|sm stmts Hsm _ IH]; intros s Hne; [discriminate|]. cbn [map_st].
+  apply rbind_np.
+  - destruct sm as [[[p a]|] e]; cbn [snd] in Hsm; cbn [stmt_step].
+    + apply rbind_np; [apply resolve_np|]. intros te _.
+      apply rbind_np; [apply Hsm|]. intros [e' s1] E1. rewrite HF in E1. apply analyze_expr_le in E1 as [_ Hv].
+      apply rbind_np; [unfold is_of_type; destruct (pat_ctx p te); [destruct (nodup_keys c)|]; discriminate|].
+      intros c _. apply rbind_np; [|discriminate].
+      destruct (vars s) as [|m r]; [congruence|]. apply vs_eq_cons_inv in Hv as (m1 & r1 & -> & _).
+      rewrite insert_vars_ok. discriminate.
+    + apply rbind_np; [apply Hsm|]. intros [e' s1] _. discriminate.
+  - intros [b s1] E1. apply rbind_np; [|intros [bs s2] _; discriminate]. apply IH.
+    (* the stack is still non-empty after the statement *)
+    assert (Hone : map_st (stmt_step balias al F) [sm] s = Ok ([b], s1)) by (cbn [map_st]; rewrite E1; reflexivity).
+    apply (stmts_sound jsig balias W0 args0 al fn F) in Hone as (_ & Htl & _); [|constructor; [|constructor]|exact Hne].
+    + destruct (vars s); [congruence|]. destruct (vars s1); [contradiction|discriminate].
+    + intros t0 s0 e0 s0' H0. rewrite HF in H0. eapply analyze_expr_sound; exact H0.
+Qed.
+
+Lemma arm_np mp e : np_fn (F e) -> np_fn (arm_step balias al F mp e).
+Proof.
+  intros He t s. unfold arm_step. apply rbind_np.
+  - destruct (typed_var mp) as [[x a]|]; [|discriminate].
+    apply rbind_np; [apply resolve_np|]. intros tx _. cbn. discriminate.
+  - intros s2 E2. apply rbind_np; [apply He|]. intros [e' s3] E3. apply rbind_np; [|discriminate].
+    rewrite HF in E3. apply analyze_expr_le in E3 as [_ Hv].
+    assert (Hne : exists m r, vars s2 = m :: r).
+    { destruct (typed_var mp) as [[x a]|].
+      - rb E2. cbn in E2. injection E2 as <-. do 2 eexists; reflexivity.
+      - injection E2 as <-. do 2 eexists; reflexivity. }
+    destruct Hne as (m & r & Ev). rewrite Ev in Hv. apply vs_eq_cons_inv in Hv as (m3 & r3 & -> & _). discriminate.
+Qed.
+End ListsN.
+
+Theorem analyze_expr_np e : pexpr_wf e = true -> np_fn (AE e).
+Proof.
+  assert (HF : forall e t s, (fun e0 t0 s0 => AE e0 t0 s0) e t s = AE e t s) by reflexivity.
+  induction e using pexpr_ind'; intros Hwf t s; cbn [pexpr_wf] in Hwf; cbn [analyze_expr].
+  - (* block *)
+    apply andb_true_iff in Hwf as [Hws Hwl].
+    assert (Hnp : Forall (fun sm => np_fn (AE (snd sm))) stmts).
+    { rewrite forallb_forall in Hws. rewrite Forall_forall in *. intros sm Hin. apply H; auto. }
+    apply rbind_np; [apply (stmts_np _ HF); [exact Hnp|cbn; discriminate]|].
+    intros [ss' s2] E. apply rbind_np.
+    + destruct last as [l|]; [|destruct (is_unit t); discriminate].
+      apply rbind_np; [apply H0, Hwl|]. intros [l' s3] _. discriminate.
+    + intros [last' s3] E0. apply rbind_np; [|discriminate].
+      apply (stmts_sound jsig balias W0 args0 al fn) in E as (_ & Htl & _); [| |cbn; discriminate].
+      2:{ apply Forall_forall. intros sm _. apply analyze_expr_sound. }
+      cbn [vars set_vars push_scope] in Htl. destruct (vars s2) as [|m2 r2] eqn:Ev2; [contradiction|].
+      assert (Hv : vs_eq (vars s2) (vars s3)).
+      { destruct last as [l|].
+        - rb E0. destruct a as [l' s3']. injection E0 as <- <-. apply analyze_expr_le in E as [_ Hv']; exact Hv'.
+        - destruct (is_unit t); [|discriminate]. injection E0 as <- <-. apply vs_eq_refl. }
+      rewrite Ev2 in Hv. apply vs_eq_cons_inv in Hv as (m3 & r3 & -> & _). discriminate.
+  - destruct t; discriminate.
+  - apply rmap_np, analyze_lit_np, Hwf.
+  - apply rmap_np. unfold insert_witness. destruct (negb is_main); [discriminate|]. destruct (lookupN (wits s) n); discriminate.
+  - apply rmap_np. unfold insert_parameter. destruct (lookupN (params s) n); [destruct (ty_eqb t0 t)|]; discriminate.
+  - destruct (get_variable (vars s) x) eqn:Eg; [|discriminate]. destruct (negb (ty_eqb t t0)); [discriminate|].
+    apply rbind_np; [|discriminate]. destruct (vars s); [discriminate|]. discriminate.
+  - apply rbind_np; [apply IHe, Hwf|]. intros [e1 s1] _. discriminate.
+  - destruct t as [| | | |tys| |]; try discriminate. destruct (negb (Nat.eqb (length es) (length tys))); [discriminate|].
+    apply rbind_np; [|intros [? ?] _; discriminate]. apply map2_np.
+    rewrite forallb_forall in Hwf. rewrite Forall_forall in *. auto.
+  - destruct t; try discriminate. destruct (negb (Nat.eqb (length es) n)); [discriminate|].
+    apply rbind_np; [|intros [? ?] _; discriminate]. apply map2_np.
+    rewrite forallb_forall in Hwf. rewrite Forall_forall in *. auto.
+  - destruct t; try discriminate. destruct k; [discriminate|]. destruct (negb (lt_pow2 (S k) (length es))); [discriminate|].
+    apply rbind_np; [|intros [? ?] _; discriminate]. apply map2_np.
+    rewrite forallb_forall in Hwf. rewrite Forall_forall in *. auto.
+  - destruct t; try discriminate. apply rbind_np; [apply IHe, Hwf|]. intros [e1 s1] _. discriminate.
+  - destruct t; try discriminate. apply rbind_np; [apply IHe, Hwf|]. intros [e1 s1] _. discriminate.
+  - destruct t; discriminate.
+  - destruct t; try discriminate. apply rbind_np; [apply IHe, Hwf|]. intros [e1 s1] _. discriminate.
+  - apply rbind_np; [apply analyze_callname_np|]. intros cn Ecn.
+    apply rbind_np; [now apply fold_expect_unreachable with (name := name)|]. intros [[[tys pre] post] build] _. cbn zeta.
+    apply rbind_np; [|intros [? ?] _; discriminate]. apply map2_np.
+    rewrite forallb_forall in Hwf. rewrite Forall_forall in *. auto.
+  - apply andb_true_iff in Hwf as [Hwf Hw3]. apply andb_true_iff in Hwf as [Hwf Hw2]. apply andb_true_iff in Hwf as [Harms Hw1].
+    apply rbind_np; [destruct lp, rp; cbn in Harms |- *; discriminate|]. intros sa _.
+    apply rbind_np; [apply resolve_np|]. intros sty _.
+    apply rbind_np; [apply IHe1, Hw1|]. intros [sc' s1] _.
+    apply rbind_np; [apply (arm_np _ HF), IHe2, Hw2|]. intros [el' s2] _.
+    apply rbind_np; [apply (arm_np _ HF), IHe3, Hw3|]. intros [er' s3] _. discriminate.
+Qed.
+End ExprN.
+
+Lemma function_np name ps ret body g : pexpr_wf body = true ->
+  analyze_function jlook jsig balias main_name name ps ret body g <> Panic.
+Proof.
+  intros Hwf. unfold analyze_function. destruct (negb (N.eqb name main_name)).
+  - apply rbind_np.
+    + apply mapr_np. apply Forall_forall. intros [x a] _. apply rmap_np, resolve_np.
+    + intros ps' _. destruct (negb (nodup_keys ps')); [discriminate|].
+      apply rbind_np; [destruct ret; [apply resolve_np|discriminate]|]. intros rt _. cbn zeta.
+      apply rbind_np; [now apply analyze_expr_np|]. intros [body' s1] E.
+      apply analyze_expr_le in E as [_ Hv]. cbn [vars] in Hv. apply vs_eq_cons_inv in Hv as (m & r & -> & _).
+      cbn [pop_scope rbind]. destruct (lookupN (g_fn g) name); discriminate.
+  - destruct ps; [|discriminate]. apply rbind_np.
+    + destruct ret; [|discriminate]. apply rbind_np; [apply resolve_np|]. intros rt _. destruct (is_unit rt); discriminate.
+    + intros _ _. cbn zeta. apply rbind_np; [now apply analyze_expr_np|]. intros [body' s1] E.
+      apply analyze_expr_le in E as [_ Hv]. cbn [vars] in Hv. apply vs_eq_cons_inv in Hv as (m & r & -> & _).
+      cbn [pop_scope rbind]. discriminate.
+Qed.
+
+Lemma items_np p : program_wf p = true -> forall g, map_st (analyze_item jlook jsig balias main_name) p g <> Panic.
+Proof.
+  induction p as [|it p IH]; intros Hwf g; [discriminate|]. cbn [program_wf forallb] in Hwf.
+  apply andb_true_iff in Hwf as [Hit Hp]. cbn [map_st].
+  apply rbind_np.
+  - destruct it; cbn [analyze_item].
+    + apply rbind_np; [apply resolve_np|]. discriminate.
+    + now apply function_np.
+    + discriminate.
+  - intros [r g1] _. apply rbind_np; [now apply IH|]. intros [items g2] _. discriminate.
+Qed.
+
+(* ast.rs never panics on a parse tree that the parser can produce *)
+Theorem analyze_no_panic p : program_wf p = true -> analyze_program jlook jsig balias main_name p <> Panic.
+Proof.
+  intros Hwf. unfold analyze_program. apply rbind_np; [now apply items_np|].
+  intros [items g] _. destruct (mains items) as [|m [|? ?]]; discriminate.
+Qed.
+End NoPanic.
+Print Assumptions analyze_no_panic.
+
+(* ... and both conditions of program_wf are necessary: parse TREES outside the parser's image on which
+   the Rust panics (computed with the example tables of Front/Analyze.v) *)
+Module PanicWitnesses.
+Import Analyze.Examples.
+Local Open Scope N_scope.
+(* match true { true => {}, false => {} } with the arms stored in the order (true, false): parse.rs:352 unreachable!() *)
+Lemma panic_invalid_arms :
+  A [ main_of [(None, PMatch (PBool true) MTrue (PBlock [] None) MFalse (PBlock [] None))] ] = Panic.
+Proof. vm_compute. reflexivity. Qed.
+(* let x: u1 = 0x;  value.rs:640 expect("valid length")  (D4; the grammar no longer produces `0x_`) *)
+Lemma panic_hex_u1_empty : A [ main_of [(Some (PId 6, PTree.AUInt 0), PLit (LHex []))] ] = Panic.
+Proof. vm_compute. reflexivity. Qed.
+(* let x: u8 = 0xfg;  value.rs:636 expect("valid chars and valid length") *)
+Lemma panic_hex_bad_char : A [ main_of [(Some (PId 6, PTree.AUInt 3), PLit (LHex [102; 103]))] ] = Panic.
+Proof. vm_compute. reflexivity. Qed.
+End PanicWitnesses.
+
+(* ====================================================================================== *)
+(** * Rejection lemmas: one per static rule of ast.rs *)
+
+Lemma map_st_In {A B S} (F:A -> S -> res (B*S)) l : forall s bs s', map_st F l s = Ok (bs, s') ->
+  forall a, In a l -> exists s0 b s1, F a s0 = Ok (b, s1).
+Proof.
+  induction l as [|x l IH]; intros s bs s' H a Hin; [contradiction|]. cbn [map_st] in H.
+  rb H. destruct a0 as [b s1]. rb H. destruct a0 as [bs1 s2]. destruct Hin as [->|Hin]; [eauto|eapply IH; eauto].
+Qed.
+
+Lemma pat_ctx_tuple_length ps tys c : pat_ctx (PTup ps) (TTuple tys) = Some c -> length ps = length tys.
+Proof.
+  cbn [pat_ctx]. revert tys c. induction ps as [|p ps IH]; intros [|t tys] c H; try discriminate; [reflexivity|].
+  destruct (pat_ctx p t); [|discriminate].
+  match type of H with match ?X with _ => _ end = _ => destruct X eqn:E end; [|discriminate].
+  cbn. f_equal. eapply IH. exact E.
+Qed.
+Lemma pat_ctx_array_length ps a n c : pat_ctx (PArr ps) (TArray a n) = Some c -> length ps = n.
+Proof. cbn [pat_ctx]. destruct (Nat.eqb (length ps) n) eqn:E; [|discriminate]. intros _. now apply Nat.eqb_eq. Qed.
+
+Section Reject.
+Variable jlook : N -> option N.
+Variable jsig : N -> option (list ty * ty).
+Variable balias : N -> option ty.
+Variable main_name : N.
+
+Section ExprR.
+Variable al : list (N*ty).
+Variable fn : list (N*fdef).
+Variable is_main : bool.
+Notation AE := (analyze_expr jlook jsig balias al fn is_main).
+Notation resolve := (resolve balias al).
+
+(* --- let statements: the pattern must fit the declared type (same tuple length / array size at every
+       level) and bind every variable at most once --- *)
+Lemma let_pattern_checked F p a e s r : stmt_step balias al F (Some (p, a), e) s = Ok r ->
+  exists te c, resolve a = Ok te /\ pat_ctx p te = Some c /\ NoDup (map fst c).
+Proof.
+  cbn [stmt_step]. intros H. rb H. rb H. destruct a1 as [e' s1]. rb H. rb H.
+  unfold is_of_type in E1. destruct (pat_ctx p a0) as [c|] eqn:Ep; [|discriminate].
+  destruct (nodup_keys c) eqn:En; [|discriminate]. apply nodup_keys_NoDup in En. eauto.
+Qed.
+(* every `let` of an accepted block passed that check *)
+Theorem block_lets_checked stmts last t s r p a e :
+  AE (PBlock stmts last) t s = Ok r -> In (Some (p, a), e) stmts ->
+  exists te c, resolve a = Ok te /\ pat_ctx p te = Some c /\ NoDup (map fst c).
+Proof.
+  cbn [analyze_expr]. intros H Hin. rb H. destruct a0 as [ss' s2].
+  destruct (map_st_In _ _ _ _ _ E _ Hin) as (s0 & b & s1 & Hs). now apply let_pattern_checked in Hs.
+Qed.
+(* duplicate variable in a let pattern *)
+Corollary let_dup_var_rejected F p a e s te c :
+  resolve a = Ok te -> pat_ctx p te = Some c -> ~ NoDup (map fst c) ->
+  forall r, stmt_step balias al F (Some (p, a), e) s <> Ok r.
+Proof.
+  intros Hr Hp Hn r H. apply let_pattern_checked in H as (te' & c' & Hr' & Hp' & Hd).
+  rewrite Hr in Hr'. injection Hr' as <-. rewrite Hp in Hp'. injection Hp' as <-. contradiction.
+Qed.
+(* tuple pattern of the wrong length (D2) / array pattern of the wrong size *)
+Corollary let_tuple_arity_rejected F ps a e s tys :
+  resolve a = Ok (TTuple tys) -> length ps <> length tys ->
+  forall r, stmt_step balias al F (Some (PTup ps, a), e) s <> Ok r.
+Proof.
+  intros Hr Hn r H. apply let_pattern_checked in H as (te' & c' & Hr' & Hp' & _).
+  rewrite Hr in Hr'. injection Hr' as <-. now apply pat_ctx_tuple_length in Hp'.
+Qed.
+Corollary let_array_size_rejected F ps a e s t0 n :
+  resolve a = Ok (TArray t0 n) -> length ps <> n ->
+  forall r, stmt_step balias al F (Some (PArr ps, a), e) s <> Ok r.
+Proof.
+  intros Hr Hn r H. apply let_pattern_checked in H as (te' & c' & Hr' & Hp' & _).
+  rewrite Hr in Hr'. injection Hr' as <-. now apply pat_ctx_array_length in Hp'.
+Qed.
+
+(* --- witnesses --- *)
+Lemma witness_reuse_rejected n t s t0 : lookupN (wits s) n = Some t0 -> AE (PWitness n) t s = Err.
+Proof. intros H. cbn [analyze_expr]. unfold insert_witness. destruct (negb is_main); [reflexivity|]. now rewrite H. Qed.
+(* a witness name stays recorded, so any later use (anywhere in the program) is a reuse *)
+Lemma witness_stays e t s e' s' n t0 :
+  AE e t s = Ok (e', s') -> lookupN (wits s) n = Some t0 -> lookupN (wits s') n = Some t0.
+Proof. intros H. apply analyze_expr_le in H as [[Hw _] _]. apply Hw. Qed.
+Lemma witness_accepted_fresh n t s r : AE (PWitness n) t s = Ok r -> is_main = true /\ lookupN (wits s) n = None.
+Proof.
+  cbn [analyze_expr]. unfold insert_witness. intros H. destruct is_main; [|discriminate]. cbn [negb] in H.
+  destruct (lookupN (wits s) n); [discriminate|]. auto.
+Qed.
+
+(* --- sizes --- *)
+Lemma list_too_long_rejected es a k s : 2 ^ k <= length es -> AE (PList es) (TList a k) s = Err.
+Proof.
+  intros H. cbn [analyze_expr]. destruct k; [reflexivity|].
+  destruct (lt_pow2 (S k) (length es)) eqn:E; [|reflexivity]. apply lt_pow2_spec in E. lia.
+Qed.
+Lemma tuple_size_rejected es tys s : length es <> length tys -> AE (PTuple es) (TTuple tys) s = Err.
+Proof. intros H. cbn [analyze_expr]. apply Nat.eqb_neq in H. now rewrite H. Qed.
+Lemma array_size_rejected es a n s : length es <> n -> AE (PArray es) (TArray a n) s = Err.
+Proof. intros H. cbn [analyze_expr]. apply Nat.eqb_neq in H. now rewrite H. Qed.
+
+(* --- unknown names --- *)
+Lemma unknown_variable_rejected x t s : get_variable (vars s) x = None -> AE (PVar x) t s = Err.
+Proof. intros H. cbn [analyze_expr]. now rewrite H. Qed.
+Lemma variable_type_mismatch_rejected x t t' s : get_variable (vars s) x = Some t' -> t <> t' -> AE (PVar x) t s = Err.
+Proof.
+  intros H Hn. cbn [analyze_expr]. rewrite H. destruct (ty_eqb t t') eqn:E; [|reflexivity].
+  apply ty_eqb_eq in E. contradiction.
+Qed.
+Lemma unknown_function_rejected f sp args t s : lookupN fn f = None ->
+  AE (PCall sp (PCustom f) args) t s = Err /\
+  (forall k, AE (PCall sp (PFold f k) args) t s = Err) /\
+  AE (PCall sp (PForWhile f) args) t s = Err.
+Proof.
+  intros H. cbn [analyze_expr analyze_callname]. rewrite H. split; [reflexivity|]. split; [|reflexivity].
+  intros [|k]; reflexivity.
+Qed.
+Lemma unknown_jet_rejected n sp args t s : jlook n = None -> AE (PCall sp (PJet n) args) t s = Err.
+Proof. intros H. cbn [analyze_expr analyze_callname]. now rewrite H. Qed.
+
+(* --- casts --- *)
+Lemma cast_layout_rejected sp a args t s src :
+  resolve a = Ok src -> cast_ok src t = false -> AE (PCall sp (PCast a) args) t s = Err.
+Proof. intros Hr Hc. cbn [analyze_expr analyze_callname]. rewrite Hr. cbn [rmap rbind call_plan]. now rewrite Hc. Qed.
+
+(* --- fold / for_while signatures --- *)
+Lemma fold_signature_checked sp f k args t s r ps body :
+  AE (PCall sp (PFold f k) args) t s = Ok r -> lookupN fn f = Some (ps, body) ->
+  exists x1 e1 x2, ps = [(x1, e1); (x2, ty_of body)] /\ ty_of body = t /\ length args = 2 /\ 1 <= k.
+Proof.
+  cbn [analyze_expr analyze_callname]. intros H Hl. rewrite Hl in H. destruct k; [discriminate|].
+  destruct ps as [|[x1 e1] [|[x2 a2] [|? ?]]]; try discriminate.
+  destruct (ty_eqb a2 (ty_of body)) eqn:Ea; [|discriminate]. apply ty_eqb_eq in Ea. subst a2.
+  cbn [rbind call_plan] in H. destruct (negb (Nat.eqb (length args) 2)) eqn:En; [discriminate|].
+  destruct (ty_eqb (ty_of body) t) eqn:Et; [|discriminate]. apply ty_eqb_eq in Et.
+  apply negb_false_iff, Nat.eqb_eq in En. exists x1, e1, x2. repeat split; auto. lia.
+Qed.
+Lemma for_while_signature_checked sp f args t s r ps body :
+  AE (PCall sp (PForWhile f) args) t s = Ok r -> lookupN fn f = Some (ps, body) ->
+  exists x1 a x2 c x3 w b, ps = [(x1, a); (x2, c); (x3, TUInt w)] /\ w <= 4 /\ t = TEither b a /\ ty_of body = t /\ length args = 2.
+Proof.
+  cbn [analyze_expr analyze_callname]. intros H Hl. rewrite Hl in H.
+  destruct ps as [|[x1 a1] [|[x2 c2] [|[x3 c3] [|? ?]]]]; try discriminate.
+  destruct (ty_of body) as [b r0| | | | | |] eqn:Eb; try discriminate.
+  destruct (ty_eqb r0 a1) eqn:Ea; [|discriminate]. apply ty_eqb_eq in Ea. subst r0.
+  destruct c3 as [| | |w| | |]; try discriminate. destruct (Nat.leb w 4) eqn:Ew; [|discriminate]. apply Nat.leb_le in Ew.
+  cbn [rbind call_plan] in H. destruct (negb (Nat.eqb (length args) 2)) eqn:En; [discriminate|].
+  rewrite Eb in H. destruct (ty_eqb (TEither b a1) t) eqn:Et; [|discriminate]. apply ty_eqb_eq in Et.
+  apply negb_false_iff, Nat.eqb_eq in En. exists x1, a1, x2, c2, x3, w, b. repeat split; auto.
+Qed.
+End ExprR.
+
+Lemma witness_outside_main_rejected al fn n t s : analyze_expr jlook jsig balias al fn false (PWitness n) t s = Err.
+Proof. reflexivity. Qed.
+Lemma unknown_alias_rejected al n : lookupN al n = None -> resolve balias al (AAlias n) = Err.
+Proof. intros H. cbn [resolve]. now rewrite H. Qed.
+
+(* --- functions --- *)
+Lemma mapr_params_keys al ps ps' :
+  mapr (fun p : N*aty => rmap (fun t => (fst p, t)) (resolve balias al (snd p))) ps = Ok ps' -> map fst ps' = map fst ps.
+Proof.
+  revert ps'. induction ps as [|[x a] ps IH]; intros ps' H; cbn [mapr] in H; [injection H as <-; reflexivity|].
+  rb H. rb H. rb E. injection E as <-. injection H as <-. cbn [map fst]. f_equal. now apply IH.
+Qed.
+(* duplicate parameter names (D3) *)
+Lemma dup_param_rejected name ps ret body g : N.eqb name main_name = false -> ~ NoDup (map fst ps) ->
+  forall r, analyze_function jlook jsig balias main_name name ps ret body g <> Ok r.
+Proof.
+  intros Hn Hd r H. unfold analyze_function in H. rewrite Hn in H. cbn [negb] in H.
+  rb H. destruct (nodup_keys a) eqn:Ek; [|discriminate]. apply nodup_keys_NoDup in Ek.
+  rewrite (mapr_params_keys _ _ _ E) in Ek. contradiction.
+Qed.
+(* a function defined twice *)
+Lemma function_twice_rejected name ps ret body g d : N.eqb name main_name = false -> lookupN (g_fn g) name = Some d ->
+  forall r, analyze_function jlook jsig balias main_name name ps ret body g <> Ok r.
+Proof.
+  intros Hn Hl r H. unfold analyze_function in H. rewrite Hn in H. cbn [negb] in H.
+  rb H. destruct (negb (nodup_keys a)); [discriminate|]. rb H. cbn zeta in H. rb H. destruct a1 as [b' s1]. rb H.
+  rewrite Hl in H. discriminate.
+Qed.
+(* main with parameters / with a non-unit result *)
+Lemma main_params_rejected p ps ret body g : analyze_function jlook jsig balias main_name main_name (p::ps) ret body g = Err.
+Proof. unfold analyze_function. rewrite N.eqb_refl. reflexivity. Qed.
+Lemma main_result_rejected a rt body g : resolve balias (g_al g) a = Ok rt -> is_unit rt = false ->
+  analyze_function jlook jsig balias main_name main_name [] (Some a) body g = Err.
+Proof. intros Hr Hu. unfold analyze_function. rewrite N.eqb_refl. cbn [negb]. rewrite Hr. cbn [rbind]. now rewrite Hu. Qed.
+
+(* --- exactly one main --- *)
+Definition is_main_item (it:pitem) : bool :=
+  match it with IFunction name _ _ _ => N.eqb name main_name | _ => false end.
+Lemma item_main it g r g' : analyze_item jlook jsig balias main_name it g = Ok (r, g') ->
+  match r with Some _ => is_main_item it = true | None => is_main_item it = false end.
+Proof.
+  destruct it; cbn [analyze_item is_main_item]; intros H.
+  - rb H. injection H as <- _. reflexivity.
+  - unfold analyze_function in H. destruct (N.eqb name main_name); cbn [negb] in H.
+    + destruct params; [|discriminate]. rb H. cbn zeta in H. rb H. destruct a0 as [b' s1]. rb H. injection H as <- _. reflexivity.
+    + rb H. destruct (negb (nodup_keys a)); [discriminate|]. rb H. cbn zeta in H. rb H. destruct a1 as [b' s1]. rb H.
+      destruct (lookupN (g_fn g) name); [discriminate|]. injection H as <- _. reflexivity.
+  - injection H as <- _. reflexivity.
+Qed.
+Lemma items_mains p : forall g items g', map_st (analyze_item jlook jsig balias main_name) p g = Ok (items, g') ->
+  length (mains items) = length (filter is_main_item p).
+Proof.
+  induction p as [|it p IH]; intros g items g' H; cbn [map_st] in H.
+  - injection H as <- _. reflexivity.
+  - rb H. destruct a as [r g1]. rb H. destruct a as [items1 g2]. injection H as <- _.
+    apply item_main in E. apply IH in E0. cbn [filter]. destruct r; rewrite E; cbn [mains length]; congruence.
+Qed.
+(* main missing / main defined twice *)
+Theorem exactly_one_main p r : analyze_program jlook jsig balias main_name p = Ok r ->
+  length (filter is_main_item p) = 1.
+Proof.
+  unfold analyze_program. intros H. rb H. destruct a as [items g]. apply items_mains in E.
+  destruct (mains items) as [|m [|? ?]]; try discriminate. now rewrite <- E.
+Qed.
+Corollary main_missing_rejected p r : filter is_main_item p = [] -> analyze_program jlook jsig balias main_name p <> Ok r.
+Proof. intros Hf H. apply exactly_one_main in H. rewrite Hf in H. discriminate. Qed.
+Corollary main_twice_rejected p r : 2 <= length (filter is_main_item p) -> analyze_program jlook jsig balias main_name p <> Ok r.
+Proof. intros Hf H. apply exactly_one_main in H. lia. Qed.
+(* every main of an accepted program has no parameters *)
+Corollary accepted_main_no_params p r ps ret body :
+  analyze_program jlook jsig balias main_name p = Ok r -> In (IFunction main_name ps ret body) p -> ps = [].
+Proof.
+  unfold analyze_program. intros H Hin. rb H. destruct a as [items g].
+  destruct (map_st_In _ _ _ _ _ E _ Hin) as (g0 & b & g1 & Hi). cbn [analyze_item] in Hi.
+  destruct ps as [|p0 ps]; [reflexivity|]. rewrite main_params_rejected in Hi. discriminate.
+Qed.
+End Reject.
+Print Assumptions block_lets_checked.
+Print Assumptions exactly_one_main.
+Print Assumptions dup_param_rejected.
